@@ -49,7 +49,7 @@ def plan(tier, seed):
 def floors(tier):
     return {"distinct_nontrivial": 200, "unwind.close": 200, "unwind.exc": 50, "op:full": 500, "op:take": 100,
             "op:abandon": 100, "op:drop": 100, "op:boom_raised": 50, "op:the": 50, "cls:dup_domain": 50,
-            "cls:caching_off": 100, "cache.check.hit": 500, "cls:ruletree_history": 100, "cls:shared_expression_pool": 60, "cls:twin:nexttree": 30, "cls:twin:kwvar": 30, "cls:twin:concat": 30, "cls:twin:flatsub": 30}
+            "cls:caching_off": 100, "cache.check.hit": 500, "cls:ruletree_history": 100, "cls:shared_expression_pool": 60, "cls:twin:nexttree": 30, "cls:twin:kwvar": 30, "cls:twin:concat": 25, "cls:twin:flatsub": 25, "cls:twin:sharedconc": 25}
 
 
 def cases(spec, ctx):
@@ -63,7 +63,7 @@ def cases(spec, ctx):
             for _ in range(rng.randint(2, 6)):
                 kind = rng.choice(["full", "full", "take", "abandon", "drop"])
                 ops.append([kind, 0] if kind == "full" else [kind, 0, rng.randint(1, 3)])
-            twin = rng.choice(["nexttree", "kwvar", "concat", "flatsub"])
+            twin = rng.choice(["nexttree", "kwvar", "concat", "flatsub", "sharedconc"])
             if twin == "kwvar":
                 # an iterator that is kept alive but never advanced again is beyond the quantifier ("take k results then
                 # close"): a keyword-constrained variable marks itself while its constraints are being evaluated and a
@@ -104,6 +104,14 @@ def cases(spec, ctx):
             if fault:
                 cond = ["and", cond, ["fpred", "f_ok", [["v", sel[0], []]]]]
             pool.append({"cond": cond, "sel": sel, "fault": fault})
+        if rng.random() < 0.12:
+            # the same decorated predicate at two sites: over two different attribute VALUES of the same objects, the other
+            # arguments alike - what one site computed must not answer for the other
+            k_ = rng.randint(1, 3)
+            vi = rng.randrange(nv)
+            twin_sel = pool[0]["sel"]
+            pool[0] = {"cond": ["fpred", "f_vge", [["v", vi, [["a", "a"]]], ["lit", k_]]], "sel": twin_sel, "fault": False}
+            pool[1] = {"cond": ["fpred", "f_vge", [["v", vi, [["a", "b"]]], ["lit", k_]]], "sel": twin_sel, "fault": False}
         ops = []
         for _ in range(rng.randint(4, 10)):
             qi = rng.randrange(len(pool))
@@ -373,7 +381,47 @@ def _twin_builder(case):
     return build, lambda o: (type(o).__name__, getattr(o, "tag", None), idx.get(id(getattr(o, "src", None)), -1))
 
 
+def check_sharedconc_case(case, ctx):
+    """two queries of a pool share ONE concatenate expression (and its variable): one uses it free, the other after an earlier
+    condition has bound the variable; whatever was evaluated before, each answers as it does alone"""
+    from entity_query_language import symbolic_mode, an, entity, let, in_
+    from entity_query_language.entity import concatenate
+    from entity_query_language.cache_data import enable_caching, disable_caching
+    from . import c16
+    ctx.cls("cls:twin:sharedconc")
+    es = [c16.E(i + 1) for i in range(5)]
+    pars = [c16.Par(v[0], [es[(v[1] + j) % 5] for j in range(v[2] - 1)]) for v in case["data"]]
+    (a1, t1) = case["conds"][0]
+    with symbolic_mode():
+        d = let(c16.E, es)
+        p = let(c16.Par, pars)
+        conc = concatenate(p.items)
+        queries = [an(entity(d, in_(d, conc))), an(entity(d, p.k == t1 + 1, in_(d, conc)))]
+    want = [[i for i, e in enumerate(es) if any(e is x for p_ in pars for x in p_.items)],
+            [i for i, e in enumerate(es) if any(e is x for p_ in pars if p_.k == t1 + 1 for x in p_.items)]]
+    idx = {id(e): i for i, e in enumerate(es)}
+    (enable_caching if case["caching"] else disable_caching)()
+    log = []
+    try:
+        for step, op in enumerate(list(case["ops"]) + [["full", 0], ["full", 0], ["full", 0]]):
+            qi = (step + len(op)) % 2 if step else 0
+            # (the parent variable is not selected: how often an element repeats is not specified, the set is)
+            got = sorted({idx.get(id(o), -1) for o in queries[qi].evaluate()})
+            log.append([qi, len(got)])
+            if got != want[qi]:
+                ctx.fail("DIFFERS_FROM_EVALUATION_ALONE", {"history_log": log, "query": ["free", "bound"][qi], "expected": want[qi],
+                                                           "observed": got, "shape": "sharedconc"})
+                return
+        if want[0] != want[1] and len({q for q, _ in log}) == 2:
+            ctx.nontrivial()
+    finally:
+        enable_caching()
+    ctx.sample({"shape": "sharedconc", "history_log": log})
+
+
 def check_twin_case(case, ctx):
+    if case["twin"] == "sharedconc":
+        return check_sharedconc_case(case, ctx)
     from entity_query_language.cache_data import enable_caching, disable_caching
     ctx.cls("cls:twin:" + case["twin"])
     (enable_caching if case["caching"] else disable_caching)()
